@@ -496,6 +496,7 @@ theorem commit_safe {cfg : Cfg} {T : List Tx} {fs : FS} {m : Mem} {cs : List CTx
   have sa3 := node_phase (cfg := cfg) (T := T ++ [tx]) (cs := cs') (c := c') (k := (allNodes T).length)
     h.pager.booted hsync (fs1.step .ws) (m.ps fs.pv) { start := m.idStart, len := m.idLen } tx.nodes []
     hq2 hcomF hlog' hstore' hdropF hB hSy hpm hl1 h.mlen hl2 hl3 hcN hl4
+    (by show fs.pd.bm ≤ fs.pv.bm; rw [h.pv]; exact Nat.le_refl _)
   -- assemble
   have hmono : ∀ g, SafeFS [T ++ [tx]] g → SafeFS [T, T ++ [tx]] g := fun g hg => safeFS_mono hg (by simp)
   have hmono0 : ∀ g, SafeFS [T] g → SafeFS [T, T ++ [tx]] g := fun g hg => safeFS_mono hg (by simp)
